@@ -1,8 +1,10 @@
 package main
 
 import (
+	"fmt"
 	"go/token"
 	"go/types"
+	"os"
 	"strings"
 
 	"golang.org/x/tools/go/ssa"
@@ -65,6 +67,14 @@ func (E *Engine) baseRef(fr *Frame, v ssa.Value) (*Term, bool) {
 // havocKeys replaces the written heap arrays by fresh ones. resolve maps a base SSA value to its
 // reference in the current context (or reports that it cannot).
 func (E *Engine) havocKeys(st *State, ws *writeSet, resolve func(ssa.Value) (*Term, bool)) {
+	if os.Getenv("GOVC_DEBUG_WRITES") != "" {
+		var ks []string
+		for k, kw := range ws.keys {
+			ks = append(ks, fmt.Sprintf("%s(any=%v fresh=%v bases=%d)", k, kw.any, kw.fresh, len(kw.bases)))
+		}
+		sortStrings(ks)
+		fmt.Fprintf(os.Stderr, "havoc all=%v keys=%v\n", ws.all, ks)
+	}
 	if ws.all {
 		E.havocAll(st)
 		return
@@ -459,6 +469,10 @@ func (E *Engine) callWrites(fn *ssa.Function, cc *ssa.CallCommon, site ssa.Instr
 			return
 		}
 	}
+	if E.pureFuncParam(fn, cc.Value) {
+		// the same parameter, captured by a function literal of the target (a cell in SSA)
+		return
+	}
 	w.all = true
 }
 
@@ -564,4 +578,39 @@ func isStringer(fn *ssa.Function) bool {
 
 func isGetter(fn *ssa.Function) bool {
 	return strings.HasPrefix(fn.Name(), "Get") && fn.Signature.Recv() != nil && fn.Signature.Results().Len() == 1
+}
+
+// pureFuncParam: v is (a load of the captured cell of) a function-typed parameter of a function whose
+// contract declares its function parameters pure.
+func (E *Engine) pureFuncParam(fn *ssa.Function, v ssa.Value) bool {
+	name := ""
+	switch t := v.(type) {
+	case *ssa.FreeVar:
+		name = t.Name()
+	case *ssa.UnOp:
+		if t.Op != token.MUL {
+			return false
+		}
+		switch x := t.X.(type) {
+		case *ssa.Alloc:
+			name = x.Comment
+		case *ssa.FreeVar:
+			name = x.Name()
+		}
+	}
+	if name == "" {
+		return false
+	}
+	for f := fn; f != nil; f = f.Parent() {
+		if h := E.P.contracts[originOf(f)]; h != nil && h.PureFuncParams {
+			for _, q := range f.Params {
+				if q.Name() == name {
+					if _, isFn := q.Type().Underlying().(*types.Signature); isFn {
+						return true
+					}
+				}
+			}
+		}
+	}
+	return false
 }
